@@ -168,6 +168,9 @@ type Pool struct {
 	NotReady bool   `json:"notReady"`
 	Deleting bool   `json:"deleting"`
 	HashAnn  string `json:"hashAnn"`
+	// Replicas > 0: a STATIC NodePool (spec.replicas); the dynamic scheduler ignores it, the driver runs the real static provisioning
+	// controller on it after the pass (StaticCreated / StaticPool events)
+	Replicas int `json:"replicas"`
 }
 
 type CSILimit struct {
@@ -251,6 +254,9 @@ type Options struct {
 	Workers    int    `json:"workers"`    // candidate-evaluation parallelism (options.CPURequests = Workers*1000)
 	MaxTypes   int    `json:"maxTypes"`   // scheduling.MaxInstanceTypes (0 = default 600)
 	Create     bool   `json:"create"`     // also run CreateNodeClaims
+	// DeadlineAfter k > 0: the context handed to Provisioner.Schedule expires (DeadlineExceeded) right after the k-th pod was placed
+	// (hook H1 commit / open) - the Solve timeout firing in the middle of a batch, deterministically
+	DeadlineAfter int `json:"deadlineAfter"`
 }
 
 // Scenario is the driver input and (normalised) the Cfg line of the trace.
